@@ -28,6 +28,7 @@ int tag(int k, std::string &label);
 #include <cstddef>
 int bump(int *v, int n);
 size_t findPos(int k);
+int sumdef(const int *x, int n, int scale = 1);
 class Tally {
 public:
     static int total();
